@@ -1360,10 +1360,51 @@ def _collecting(fn):
 _T0 = time.monotonic()
 
 
+def directed_cases():
+    """A project that mounts one of its own branches as a submodule: the gitlink names a commit of the same repository
+    that the receiver does not have yet although it has the commit whose tree holds the gitlink.  (Gitlinks are never
+    followed, so having the linking commit says nothing about the linked one.)  Crossed with every sender role dulwich
+    plays.  -> [("raw"|"xfer", case)]"""
+    nl = len(G.GITLINKS)
+    shapes = {
+        # commit 0 = docs root X; 1 = main root, links X; 2 = docs tip (child of X)
+        "link-root": ([{"parents": [], "ops": [("base", 0)], "t": 0}, {"parents": [], "ops": [("base", 1), ("link", nl + 0)], "t": 10},
+                       {"parents": [0], "ops": [("bump", 0, 1)], "t": 20}], {b"refs/heads/main": 1, b"refs/heads/docs": 2}, 1),
+        # 0 docs root; 1 = X (child of 0); 2 = main root, links X; 3 = docs tip (child of X)
+        "link-inner": ([{"parents": [], "ops": [("base", 0)], "t": 0}, {"parents": [0], "ops": [("bump", 2, 1)], "t": 5},
+                        {"parents": [], "ops": [("base", 2), ("link", nl + 1)], "t": 10}, {"parents": [1], "ops": [("bump", 0, 1)], "t": 20}],
+                       {b"refs/heads/main": 2, b"refs/heads/docs": 3}, 2),
+        # main has history of its own; the link appears in its second commit; docs tip is a merge of X and a side commit
+        "link-merge": ([{"parents": [], "ops": [("base", 1)], "t": 0}, {"parents": [], "ops": [("base", 0)], "t": 2},
+                        {"parents": [0], "ops": [("bump", 0, 1), ("link", nl + 1)], "t": 10}, {"parents": [1], "ops": [("bump", 2, 1)], "t": 12},
+                        {"parents": [1, 3], "ops": [("bump", 4, 1)], "t": 20}], {b"refs/heads/main": 2, b"refs/heads/docs": 4}, 2),
+    }
+    out = []
+    base_caps = [b"side-band-64k", b"thin-pack", b"ofs-delta"]
+    for name, (commits, refs, have) in sorted(shapes.items()):
+        hist = {"commits": commits, "tags": [], "refs": [(k, ("c", v)) for k, v in sorted(refs.items())], "head": b"refs/heads/main"}
+        for layout in ("loose", "gitpack", "dulpack"):
+            sender = {"layout": layout, "packed_refs": layout != "loose", "cgraph": False}
+            convs = [{"wants": [("adv", k)], "have_tips": [have], "order": 0, "absent_haves": [], "object_haves": [],
+                      "caps": base_caps + extra, "done": True, "flush_every": 0}
+                     for k in (0, 1) for extra in ([], [b"multi_ack"], [b"multi_ack_detailed"], [b"multi_ack_detailed", b"no-done"])]
+            out.append(("raw", {"hist": hist, "sender": sender, "convs": convs, "directed": name}))
+            recv = {"tips": [have], "how": ["heads"] * 3, "tags": [], "own": 0, "layout": "loose" if layout != "loose" else "gitpack", "packed_refs": False, "cgraph": False}
+            for op, trs in (("fetch", ["local", "tcp", "http", "cgit", "cgith"]), ("push", ["local", "tcp", "sub", "http"])):
+                for tr in trs:
+                    o = {"proto": 0, "tagmode": 0, "thin": True} if tr in CGIT else {}
+                    out.append(("xfer", {"hist": hist, "sender": sender, "recv": recv, "steps": [{"op": op, "tr": tr, "wants": [0, 1], "o": o}], "directed": name}))
+    return out
+
+
 def _part(ctx, item):
     n_xfer, n_raw = item
     raw_case, xfer_case = _strategies()
     try:
+        for k, (kind, case) in enumerate(directed_cases()):
+            if k % 16 == ctx.shard % 16:
+                ctx.label("directed:" + case["directed"])
+                _collecting(exec_raw if kind == "raw" else exec_xfer)(ctx, case)
         run_hypothesis(ctx, xfer_case, _collecting(exec_xfer), max_examples=n_xfer, shrink=False)
         run_hypothesis(ctx, raw_case, _collecting(exec_raw), max_examples=n_raw, shrink=False)
     finally:
